@@ -115,9 +115,31 @@ fn run_bin<X: BinRS>(ctx: &mut Ctx, gen: &BitGen, path: u8, dense: usize) {
     ctx.set_ty(X::NAME);
     ctx.note_input(&bits, !bits.is_empty());
     bit_shape_counters(ctx, &r);
+    // "every bit vector B": B may have been obtained in any way the API offers
     let t = ctx.total("construct", "", path as u128, bits.len() as u64, 0, || {
-        let bv: BitVector = bits.iter().copied().collect();
-        if path == 0 {
+        let ends_with_one = bits.last() == Some(&true);
+        let bv: BitVector = match path {
+            2 if ends_with_one => r.ones.iter().copied().collect(),
+            3 if ends_with_one => {
+                // positions repeated and out of order
+                let mut messy: Vec<usize> = r.ones.iter().rev().copied().collect();
+                messy.extend(r.ones.iter().copied().step_by(2));
+                messy.into_iter().collect()
+            }
+            4 => {
+                // through the mutable vector: zeros, then every one set twice (set and set_bits)
+                let mut m = qwt::BitVectorMut::with_zeros(bits.len());
+                for &p in &r.ones {
+                    m.set(p, true);
+                }
+                for &p in r.ones.iter().step_by(3) {
+                    m.set_bits(p, 1, 1);
+                }
+                m.into()
+            }
+            _ => bits.iter().copied().collect(),
+        };
+        if path % 2 == 0 {
             X::new_(bv)
         } else {
             X::from(bv)
@@ -219,14 +241,14 @@ fn enumerate(args: &Args) -> Vec<VCase> {
             let tys = ["RSNarrow", "RSWide"];
             for g in tinybits_all(if th { 17 } else { 14 }) {
                 for ty in tys {
-                    let p = (v.len() % 2) as u8;
+                    let p = (v.len() % 5) as u8;
                     v.push(VCase::Bin { ty: ty.into(), gen: g.clone(), path: p, dense: 8193 });
                 }
             }
             for &n in &bit_lengths(th) {
                 for pat in bit_patterns() {
                     for ty in tys {
-                        v.push(VCase::Bin { ty: ty.into(), gen: BitGen::Pat { n, pat }, path: (v.len() % 2) as u8, dense: if th { 8193 } else { 2049 } });
+                        v.push(VCase::Bin { ty: ty.into(), gen: BitGen::Pat { n, pat }, path: (v.len() % 5) as u8, dense: if th { 8193 } else { 2049 } });
                     }
                 }
             }
